@@ -111,6 +111,39 @@ def multiset(rows):
     return sorted(tuple(float(x) for x in r) for r in rows)
 
 
+def _ident(data):
+    return [list(range(len(b))) for b in data]
+
+
+def _rev(data):
+    return [list(range(len(b)))[::-1] for b in data]
+
+
+_INT1 = [[float(v)] for v in [0, 0, 0, 1, 1, 2, 2, 3, 3, 4, 5, 5, 6, 7, 7, 8, 9, 9, 10, 11]]
+_INT1B = [[float(v)] for v in [6, 6, 7, 8, 8, 9, 10, 10, 11, 11, 12, 13, 13, 14, 15, 15]]
+_NN_REF = [[0.0, 0.0], [1.0, 0.0], [0.0, 0.0], [2.0, 2.0], [1.0, 1.0], [3.0, 1.0]]
+FIXED = [
+    # NN-DVI, sizes 6 + 2 then 2 + 5 (a split of the pooled index anywhere but at len(sample1) shows here), duplicates
+    {"det": "NNDVI", "params": {"k_nn": 2, "sampling_times": 5, "alpha": 0.4}, "seed": 11,
+     "data": [_NN_REF, [[1.0, 0.0], [5.0, 5.0]], [[9.0, 9.0], [8.0, 9.0], [9.0, 8.0], [1.0, 0.0], [9.0, 9.0]], _NN_REF[:4]],
+     "perm": [[5, 4, 3, 2, 1, 0], [1, 0], [3, 4, 0, 1, 2], [2, 3, 0, 1]]},
+    # kdq-tree, sorted integer-coded reference with few distinct values per cell, count_ubound 3
+    {"det": "KdqTreeBatch", "params": {"alpha": 0.2, "bootstrap_samples": 10, "count_ubound": 3}, "seed": 12,
+     "data": [_INT1, _INT1[2:14], _INT1B, _INT1B[::-1][:12], _INT1[4:]],
+     "perm": [[(7 * i + 3) % 20 for i in range(20)], list(range(12))[::-1], [(5 * i + 1) % 16 for i in range(16)],
+              list(range(12)), [(3 * i) % 16 for i in range(16)]]},
+    # HDM detect_batch = 3, sorted batches, halves exchanged / reversed
+    {"det": "HDDDM", "params": {"detect_batch": 3, "divergence": "H", "statistic": "stdev", "significance": 0.5, "subsets": 3},
+     "seed": 13, "data": [_INT1, _INT1[3:15], _INT1[1:17], _INT1B, _INT1B[2:], _INT1[5:]],
+     "perm": [list(range(10, 20)) + list(range(10)), list(range(12))[::-1], list(range(8, 16)) + list(range(8)),
+              list(range(16))[::-1], list(range(7, 14)) + list(range(7)), list(range(15))[::-1]]},
+    {"det": "CDBD", "params": {"detect_batch": 2, "divergence": "KL", "statistic": "tstat", "significance": 0.05, "subsets": 5},
+     "seed": 14, "data": [_INT1, _INT1[3:15], _INT1[1:17], _INT1B, _INT1B[2:], _INT1[5:]],
+     "perm": [list(range(20))[::-1], list(range(12))[::-1], list(range(16))[::-1], list(range(16))[::-1],
+              list(range(14))[::-1], list(range(15))[::-1]]},
+]
+
+
 def gen_cases(ctx):
     rng = ctx.rng
     st = ctx.stats
@@ -118,9 +151,11 @@ def gen_cases(ctx):
         st[key] = {}
     def bump(key, v):
         st[key][str(v)] = st[key].get(str(v), 0) + 1
-    plan = [("HDDDM", ctx.scale(14, 160)), ("CDBD", ctx.scale(8, 80)), ("KdqTreeBatch", ctx.scale(10, 120)),
-            ("NNDVI", ctx.scale(14, 160))]
-    cases, k = [], 0
+    plan = [("HDDDM", ctx.scale(36, 500)), ("CDBD", ctx.scale(18, 250)), ("KdqTreeBatch", ctx.scale(24, 400)),
+            ("NNDVI", ctx.scale(36, 500))]
+    cases, k = [dict(c) for c in FIXED], 0
+    for c in FIXED:
+        bump("det", c["det"]); bump("style", "hand-made")
     for name, count in plan:
         for _ in range(count):
             k += 1
@@ -407,8 +442,12 @@ def term_hdm(case, obs):
         if o[i - 1]["ds"] == "drift" and i not in pick:
             pick.append(i)          # the update that follows the first drift: the reference was replaced
             break
+    # detect_batch = 2: once the decisions differ the references differ legitimately
+    div = next((i for i, (a, b) in enumerate(zip(o, p)) if a["ds"] != b["ds"]), len(o))
     items = []
     for i in pick:
+        if i > div:
+            continue
         a, b = o[i], p[i]
         if a["hists"] is None or b["hists"] is None or len(a["ref_before"]) > 90:
             continue
